@@ -77,12 +77,18 @@ theorem fillId_named {c : Check} {raw : Raw} (h : raw.id ≠ []) : fillId c raw 
   | nil => exact absurd hr h
   | cons a as => simp
 
-theorem runCheck_plain {nm : NosecMap} {env : Env} {c : Check} {raw : Raw} {l col : Nat}
+theorem runCheck_plain {nm : NosecMap} {env : Env} {c : Check} {raw : PRaw} {l col : Nat}
     (hrun : c.run env = .ok (some raw)) (hid : raw.id ≠ [])
-    (hn : NoNosecOn nm env.ctx.linerange) (hraw : raw.lineno = none) (hcol : raw.col = none)
+    (hn : NoNosecOn nm env.ctx.linerange) (hloc : raw.loc = .ctx)
     (hl : env.ctx.lineno = some l) (hc : env.ctx.col = some col) :
     runCheck nm env c = [.finding ⟨raw.id, raw.sev, raw.conf, l, env.ctx.linerange, col⟩] := by
-  simp [runCheck, hrun, fillId_named hid, emit_plain hn hraw hcol hl hc]
+  have hres : raw.resolve env.v = { id := raw.id, sev := raw.sev, conf := raw.conf } := by
+    simp [PRaw.resolve, hloc]
+  have hid' : (raw.resolve env.v).id ≠ [] := by rw [hres]; exact hid
+  have hfill : fillId c (raw.resolve env.v) = { id := raw.id, sev := raw.sev, conf := raw.conf } := by
+    rw [fillId_named hid', hres]
+  simp only [runCheck, hrun, hfill]
+  rw [emit_plain (raw := { id := raw.id, sev := raw.sev, conf := raw.conf }) hn rfl rfl hl hc]
 
 theorem mem_runVisit {checks : List Check} {nm : NosecMap} {lines : List Str} {s : VState} {v : Visit}
     {kind : Str} {ctx : Ctx} {c : Check} {e : Event}
